@@ -8,7 +8,7 @@ from ..oracles import sgr as SGR
 
 PROP_ID = "C03"
 LEVEL = "exploration"
-RULE = "Hypothesis: segment/control histories x ordered pair of colour systems sharing the same Style objects x no_color x terminal x legacy_windows; oracle = independent SGR/OSC-8 interpreter"
+RULE = "Hypothesis: segment/control histories x print options (cut at line ends or not) x ordered pair of colour systems sharing the same Style objects x no_color x terminal x legacy_windows; one Style rendering several multi-line texts directly; oracle = independent SGR/OSC-8 interpreter"
 ASSUMPTIONS = [
     "the expected colour after down-conversion is Color.downgrade(system) itself (its correctness is C18's subject); None/unset and 'default' are the same terminal state",
     "segment text is free of ESC and C0 controls other than newline (control codes go through Console.control/bell/clear/show_cursor)",
@@ -19,11 +19,13 @@ ASSUMPTIONS = [
 SYSTEMS = [None, "standard", "256", "truecolor", "windows"]
 DEPTH = {None: 0, "standard": 1, "windows": 1, "256": 2, "truecolor": 3}
 CS_ENUM = {"standard": "STANDARD", "256": "EIGHT_BIT", "truecolor": "TRUECOLOR", "windows": "WINDOWS"}
+BLANKS = " " + GC.NBSP + GC.IDEO_SPACE + "\u2003"  # visible cells that str.isspace() / str.strip() treat as white space: underline, background, reverse and links show on them
 CONTROLS = ["bell", "clear", "clear_nohome", "hide_cursor", "show_cursor", "raw_control"]
 
 
 def seg_text():
-    alpha = st.one_of(st.sampled_from(GC.NARROW_ASCII + GC.PUNCT), st.sampled_from(GC.NARROW_ASCII), st.just(" "), st.sampled_from(GC.WIDE), st.sampled_from(GC.ZERO), st.just("\n"), st.sampled_from(GC.LATIN1))
+    alpha = st.one_of(st.sampled_from(GC.NARROW_ASCII + GC.PUNCT), st.sampled_from(GC.NARROW_ASCII), st.just(" "), st.sampled_from(GC.WIDE), st.sampled_from(GC.ZERO), st.just("\n"), st.sampled_from(GC.LATIN1),
+                      st.sampled_from(BLANKS))
     return st.text(alpha, min_size=0, max_size=8)
 
 
@@ -34,8 +36,11 @@ def item():
     derive = st.sampled_from([{"derive": "update_link", "link": "https://other.example/x"}, {"derive": "update_link", "link": None}, {"derive": "without_color"}, {"derive": "copy"}])
     plus = st.one_of(st.none(), st.none(), st.none(), negative, st.sampled_from(GS.PALETTE), GS.style_spec(max_attrs=3), derive, derive)
     seg = st.builds(lambda t, s, p: {"t": t, "s": s, "plus": p}, seg_text(), st.one_of(st.none(), GS.style_spec(), GS.style_spec(), st.sampled_from(GS.PALETTE)), plus)
-    pr = st.builds(lambda segs, route, outer: ["print", segs, route] if not route.endswith("outer") else ["print", segs, route, outer], st.lists(seg, min_size=1, max_size=6),
-                   st.sampled_from(["raw", "raw", "text", "print_style", "lazy_outer", "text_outer"]), st.sampled_from(GS.PALETTE + [{"attrs": {"bold": True, "italic": True}, "color": None, "bgcolor": None, "link": None}]))
+    # print options that decide how the rendered segments reach the buffer (cut at line ends and cropped, or handed over as the renderable yielded them);
+    # at 1000 cells none of them changes what is visible
+    opts = st.sampled_from([None, None, None, {"soft_wrap": True}, {"soft_wrap": True}, {"crop": False}, {"crop": False, "no_wrap": True, "overflow": "ignore"}, {"no_wrap": True}, {"soft_wrap": False}])
+    pr = st.builds(lambda segs, route, outer, o: ["print", segs, route, outer if route.endswith("outer") else None, o], st.lists(seg, min_size=1, max_size=6),
+                   st.sampled_from(["raw", "raw", "text", "print_style", "lazy_outer", "text_outer"]), st.sampled_from(GS.PALETTE + [{"attrs": {"bold": True, "italic": True}, "color": None, "bgcolor": None, "link": None}]), opts)
     ctl = st.sampled_from(CONTROLS).map(lambda k: ["ctl", k])
     return st.one_of(pr, pr, pr, ctl)
 
@@ -74,15 +79,17 @@ class Lazy:
 class Stream(Part):
     name = "stream"
     rule = ("1-5 print/control items (1-6 segments each, text over narrow/wide/zero-width/newline, style over 13 tri-state attributes x 6 colour forms "
-            "x link, or None; routes: raw Segment renderable, Text.assemble, str with print(style=)) x ordered pair of {None, standard, 256, truecolor, "
-            "windows} x no_color x force_terminal x legacy_windows; non-trivial = some segment has >=2 attributes and both colours, or a link, or the "
+            "x link, or None; text also over blanks that strip() removes: space, NBSP, ideographic and em space; routes: raw Segment renderable - its segments may span several "
+            "lines -, Text.assemble, str with print(style=); each print with options {default, soft_wrap, crop=False, no_wrap, overflow='ignore'} that decide whether the segments "
+            "are cut at line ends before they are written, and Console(soft_wrap=) ) x ordered pair of {None, standard, 256, truecolor, "
+            "windows} x no_color x force_terminal x legacy_windows; every visible character, blanks included, is compared; non-trivial = some segment has >=2 attributes and both colours, or a link, or the "
             "pair has different colour depth with a coloured segment")
     budget = {"quick": (16, 800), "thorough": (16, 12000)}
 
     def strategy(self, tier):
         return st.builds(
-            lambda items, a, b, nc, term, lw, rec, env, pg: {"items": items, "systems": [a, b], "no_color": nc if env is None else env[1], "no_color_arg": None if env is None else env[0], "env_no_color": False if env is None else env[2],
-                                                            "terminal": term, "legacy": lw, "record": rec, "pager": pg},
+            lambda items, a, b, nc, term, lw, rec, env, pg, sw: {"items": items, "systems": [a, b], "no_color": nc if env is None else env[1], "no_color_arg": None if env is None else env[0], "env_no_color": False if env is None else env[2],
+                                                            "terminal": term, "legacy": lw, "record": rec, "pager": pg, "soft_wrap": sw},
             st.lists(item(), min_size=1, max_size=5),
             st.sampled_from(SYSTEMS), st.sampled_from(SYSTEMS),
             st.sampled_from([False, False, False, True]), st.sampled_from([True, True, False, [1, 0], [0, 1], [1, 1], [0, 0]]), st.sampled_from([False, False, False, True]), st.sampled_from([False, False, True]),
@@ -90,6 +97,8 @@ class Stream(Part):
             st.sampled_from([None, None, None, [None, True, True], [None, False, False], [False, False, True], [True, True, False], [False, False, False], [True, True, True]]),
             # everything is written inside "with console.pager(pager, styles=, links=)": the stream is what the pager is shown, nothing reaches the file
             st.sampled_from([None, None, None, None, None, {"styles": True, "links": True}, {"styles": True, "links": False}, {"styles": False, "links": False}]),
+            # Console(soft_wrap=True): the default of print(soft_wrap=None)
+            st.sampled_from([False, False, False, False, True]),
         )
 
     def check(self, spec, ctx):
@@ -135,10 +144,10 @@ class Stream(Part):
             f = files[0]
             if "no_color_arg" in spec and (spec["no_color_arg"] is not None or spec.get("env_no_color")):
                 con = sut(Console, file=f, color_system=system, force_terminal=force, no_color=spec["no_color_arg"], legacy_windows=spec["legacy"], width=1000, record=spec.get("record", False),
-                          _environ={"NO_COLOR": "1"} if spec.get("env_no_color") else {})
+                          soft_wrap=bool(spec.get("soft_wrap")), _environ={"NO_COLOR": "1"} if spec.get("env_no_color") else {})
                 ctx.cls("no_color-arg-%s-env-%s" % (spec["no_color_arg"], spec.get("env_no_color")))
             else:
-                con = sut(Console, file=f, color_system=system, force_terminal=force, no_color=spec["no_color"], legacy_windows=spec["legacy"], width=1000, record=spec.get("record", False), _environ={})
+                con = sut(Console, file=f, color_system=system, force_terminal=force, no_color=spec["no_color"], legacy_windows=spec["legacy"], width=1000, record=spec.get("record", False), soft_wrap=bool(spec.get("soft_wrap")), _environ={})
             expected = []  # ("ch", c, attrs, fg, bg, link) | ("ctl", text)
             term_now = terms[0]
             switch_at = (len(spec["items"]) + 1) // 2 if len(files) == 2 else None
@@ -177,12 +186,17 @@ class Stream(Part):
                         expected.append(("ctlseq", text))
                     continue
                 route = it[2]
+                kw = dict(it[4] or {}) if len(it) > 4 else {}
+                if kw or spec.get("soft_wrap"):
+                    ctx.cls("print-options-" + ("+".join("%s=%s" % kv for kv in sorted(kw.items())) or "none") + ("-console-soft_wrap" if spec.get("soft_wrap") else ""))
+                    if any("\n" in sg["t"] and sg["t"].strip("\n") for sg in it[1]):
+                        ctx.cls("multi-line-segment-with-print-options")
                 if route == "raw" and any(sg.get("plus") is not None and sg["s"] for sg in it[1]):
                     # "derived" history: write each segment on its own, then build base + plus *afterwards* (the base's codes are cached by then)
                     # and write text in the derived style: it must carry its own codes
                     styled = []
                     for (t, base, sp), sg in zip(segs, it[1]):
-                        sut(con.print, Raw([Segment(t, base)]), end="")
+                        sut(con.print, Raw([Segment(t, base)]), end="", **kw)
                         styled.append((t, sp))
                         if sg.get("plus") is not None and base is not None:
                             plus = sg["plus"]
@@ -200,15 +214,15 @@ class Stream(Part):
                             else:
                                 derived = sut(lambda: base + GS.build_style(plus))
                                 dspec = GS.merge(sp, plus)
-                            sut(con.print, Raw([Segment(t or "d", derived)]), end="")
+                            sut(con.print, Raw([Segment(t or "d", derived)]), end="", **kw)
                             styled.append((t or "d", dspec))
                     ctx.cls("derived-after-write")
                 elif route == "raw":
-                    sut(con.print, Raw([Segment(t, s) for t, s, _ in segs]), end="")
+                    sut(con.print, Raw([Segment(t, s) for t, s, _ in segs]), end="", **kw)
                     styled = [(t, sp) for t, _, sp in segs]
                 elif route == "lazy_outer":
                     outer = it[3]
-                    sut(con.print, Lazy([(t, sp) for t, _, sp in segs]), end="", style=GS.build_style(outer))
+                    sut(con.print, Lazy([(t, sp) for t, _, sp in segs]), end="", style=GS.build_style(outer), **kw)
                     styled = []
                     for t, _, sp in segs:
                         styled.append((t, GS.merge(outer, sp) if sp else outer))
@@ -220,15 +234,15 @@ class Stream(Part):
                     base = [None, {"attrs": {"bold": False}, "color": None, "bgcolor": None, "link": None}, {"attrs": {"italic": False, "underline": False}, "color": None, "bgcolor": None, "link": None}][len(segs) % 3]
                     neg = {"attrs": {"italic": False}, "color": None, "bgcolor": None, "link": None}
                     pieces = [(t, s, sp) if (sp is not None or base is None) else (t, GS.build_style(neg), neg) for t, s, sp in segs]
-                    sut(con.print, Text.assemble(*[(t, s) if s is not None else t for t, s, _ in pieces], end="", style=GS.build_style(base) if base else ""), end="", style=GS.build_style(outer))
+                    sut(con.print, Text.assemble(*[(t, s) if s is not None else t for t, s, _ in pieces], end="", style=GS.build_style(base) if base else ""), end="", style=GS.build_style(outer), **kw)
                     styled = [(t, GS.merge(outer, base, sp)) for t, _, sp in pieces]
                     ctx.cls("text-under-an-outer-style")
                 elif route == "text":
-                    sut(con.print, Text.assemble(*[(t, s) if s is not None else t for t, s, _ in segs], end=""), end="")
+                    sut(con.print, Text.assemble(*[(t, s) if s is not None else t for t, s, _ in segs], end=""), end="", **kw)
                     styled = [(t, sp) for t, _, sp in segs]
                 else:
                     t0, s0, sp0 = segs[0]
-                    sut(con.print, t0, style=s0, end="", markup=False, highlight=False, emoji=False)
+                    sut(con.print, t0, style=s0, end="", markup=False, highlight=False, emoji=False, **kw)
                     styled = [(t0, sp0)]
                     if route == "print_style" and t0 == "":
                         styled = [("", None)]
@@ -322,6 +336,86 @@ class Stream(Part):
         return ("idx", c.number)
 
 
+class Render(Part):
+    name = "render"
+    rule = ("one Style object (13 tri-state attributes x 6 colour forms x link) renders 1-4 texts in turn with Style.render(text, color_system=, legacy_windows=) - the call "
+            "that turns every buffered segment into characters; each text over narrow/wide/zero-width characters, blanks (space, NBSP, ideographic and em space, tab), "
+            "new lines and carriage returns, 0-12 characters, any colour system per call (so the codes cached by an earlier call meet a different system), written between "
+            "an unstyled prefix and suffix; the whole stream is read by the SGR/OSC-8 interpreter: same characters in order (carriage returns as controls), every visible "
+            "character of a rendered text - blanks included, wherever they stand relative to line ends - shows exactly the style's attributes, down-converted colours "
+            "and link (no link under legacy_windows), prefix/suffix/in-between text shows nothing, the final state is the reset state, and with color_system=None the text "
+            "comes back unchanged; non-trivial = some call has a colour system, a text with a visible character and a style with an attribute switched on, a colour or a link")
+    budget = {"quick": (8, 500), "thorough": (16, 8000)}
+
+    def strategy(self, tier):
+        alpha = st.one_of(st.sampled_from(GC.NARROW_ASCII + GC.PUNCT), st.sampled_from(GC.NARROW_ASCII), st.sampled_from(BLANKS + "\t"), st.sampled_from(BLANKS + "\t"), st.sampled_from(GC.WIDE),
+                          st.sampled_from(GC.ZERO), st.just("\n"), st.just("\n"), st.sampled_from(["\r\n", "\r"]), st.sampled_from(GC.LATIN1))
+        text = st.lists(alpha, min_size=0, max_size=12).map("".join)
+        plain = st.text(st.sampled_from("ab> <\n "), max_size=3)
+        call = st.builds(lambda t, sysname, lw, sep: {"t": t, "system": sysname, "legacy": lw, "sep": sep}, text, st.sampled_from(SYSTEMS + ["truecolor", "standard"]), st.sampled_from([False, False, False, True]), plain)
+        return st.builds(lambda sp, calls, pre: {"s": sp, "calls": calls, "pre": pre}, st.one_of(GS.style_spec(), GS.style_spec(), st.sampled_from(GS.PALETTE)), st.lists(call, min_size=1, max_size=4), plain)
+
+    def check(self, spec, ctx):
+        from rich.color import Color, ColorSystem
+
+        sp = spec["s"]
+        style = sut(GS.build_style, sp)
+        attrs = frozenset(k for k, v in sp["attrs"].items() if v)
+        shows = bool(attrs or sp["color"] or sp["bgcolor"] or sp["link"])
+        plain_state = (frozenset(), SGR.DEFAULT, SGR.DEFAULT, None)
+        out = [spec["pre"]]
+        want = [("ch", c) + plain_state for c in spec["pre"]]
+        for call in spec["calls"]:
+            system = call["system"]
+            cs = ColorSystem[CS_ENUM[system]] if system else None
+            piece = sut(style.render, call["t"], color_system=cs, legacy_windows=call["legacy"])
+            if not isinstance(piece, str):
+                ctx.violation("stream", "C03/render/not-a-string", "Style.render returned %r" % (piece,))
+                return
+            if cs is None and piece != call["t"]:
+                ctx.violation("no-colour-system", "C03/render/no-system-changed", "Style.render(%r, color_system=None) of style %r returned %r" % (call["t"], sp, piece))
+                return
+            out.append(piece)
+            out.append(call["sep"])
+            if cs is None:
+                state = plain_state
+            else:
+                fg = Stream.canon(Color.parse(sp["color"]).downgrade(cs)) if sp["color"] else SGR.DEFAULT
+                bg = Stream.canon(Color.parse(sp["bgcolor"]).downgrade(cs)) if sp["bgcolor"] else SGR.DEFAULT
+                state = (attrs, fg, bg, sp["link"] if not call["legacy"] else None)
+                if shows and any(c not in "\r\n" for c in call["t"]):
+                    ctx.nontrivial = True
+            for c in call["t"]:
+                want.append(("ctl", c) if c == "\r" else ("ch", c) + state)
+            want.extend(("ch", c) + plain_state for c in call["sep"])
+            if "\n" in call["t"].strip("\n"):
+                ctx.cls("multi-line-text")
+            if call["t"] != call["t"].strip() and call["t"].strip():
+                ctx.cls("text-with-outer-white-space")
+        if len({c["system"] for c in spec["calls"]}) > 1:
+            ctx.cls("one-style-several-systems")
+        stream = "".join(out)
+        try:
+            events, final = SGR.interpret(stream)
+        except SGR.BadStream as e:
+            ctx.violation("stream", "C03/render/malformed", "%s in %r" % (e, stream[:300]))
+            return
+        if [e[:2] for e in events] != [e[:2] for e in want]:
+            ctx.violation("characters", "C03/render/chars", "style %r, calls %r: the stream reads %r, expected %r; stream %r" % (
+                sp, spec["calls"], [e[1] for e in events][:40], [e[1] for e in want][:40], stream[:240]))
+            return
+        for i, (g, w) in enumerate(zip(events, want)):
+            if g[0] == "ch" and g[1] != "\n" and tuple(g[2:]) != tuple(w[2:]):
+                which = [n for n, x, y in zip(("attrs", "fg", "bg", "link"), g[2:], w[2:]) if x != y]
+                leak = w[2:] == plain_state
+                ctx.violation("leak" if leak else "style", "C03/render/%s" % ("leak" if leak else "+".join(which)), "style %r, calls %r: character %d %r shown with %r, %s %r (differs in %s); stream %r" % (
+                    sp, spec["calls"], i, g[1], g[2:], "expected" if leak else "rendered with", w[2:], which, stream[:240]))
+                return
+        if final != plain_state:
+            ctx.violation("leak", "C03/render/final-state", "style %r, calls %r: terminal state after the stream is %r; stream %r" % (sp, spec["calls"], final, stream[:240]))
+            return
+
+
 class Bulk(Part):
     name = "bulk"
     rule = ("one print() of a renderable that yields many styled line segments - total size around 32Ki / 64Ki / 96Ki characters and beyond, lines of 10 to 40000 characters - "
@@ -375,4 +469,4 @@ class Bulk(Part):
         ctx.cls("written>32767" if len(out) > 32767 else "written<=32767")
 
 
-PARTS = [Stream(), Bulk()]
+PARTS = [Stream(), Bulk(), Render()]
